@@ -106,6 +106,19 @@ def invert_topology(
     return inverse_topology(path[:-1], update, topology)
 
 
+def _invert_topology_at_store(
+        update: Update,
+        args: Tuple[Store],
+) -> State:
+    """Like :py:func:`invert_topology`, for the process held by a store.
+
+    The path is the one the store has when the function is called.
+    """
+    store, = args
+    return inverse_topology(
+        store.path_for()[:-1], update, store.topology)
+
+
 def timestamp(dt: Optional[Any] = None) -> str:
     """Get a timestamp of the form ``YYYYMMDD.HHMMSS``.
 
@@ -803,6 +816,25 @@ class Engine:
 
         flow_update_dict = dict(flow_updates)
 
+        # A process that is re-registered under another path while its
+        # old path is deleted has been moved: its schedule entry (the
+        # time it has been simulated to and its update in flight, if
+        # any) goes with it.
+        moved_fronts = {}
+        if process_updates and deletions:
+            registered_at = {
+                id(process): path
+                for path, process in self.process_paths.items()}
+            for path, process in process_updates:
+                old_path = registered_at.get(id(process))
+                if (
+                        old_path is not None and old_path != path
+                        and old_path in self.front
+                        and any(
+                            starts_with(old_path, deletion)
+                            for deletion in deletions)):
+                    moved_fronts[path] = self.front.pop(old_path)
+
         if topology_updates:
             for path, topology_update in topology_updates:
                 assoc_path(self.topology, path, topology_update)
@@ -832,6 +864,10 @@ class Engine:
         if deletions:
             for deletion in deletions:
                 self._delete_path(deletion)
+
+        for path, entry in moved_fronts.items():
+            if path in self.process_paths:
+                self.front[path] = entry
 
         return view_expire
 
@@ -1245,10 +1281,13 @@ def _process_update(
         interval,
         states)
 
+    # The update is relative to where the process is when the update is
+    # applied: its compartment may be moved while the update is awaited.
+    _ = path
     absolute = Defer(
         process,
-        invert_topology,
-        (path, store.topology))
+        _invert_topology_at_store,
+        (store,))
 
     return absolute, store
 
